@@ -212,7 +212,19 @@ func (h *c05D) result(id int64, kind int) {
 	}
 	pk.cmd <- c05Cmd{kind: kind}
 	synctest.Wait()
-	h.line = append(h.line, 3, id, int64(kind), flag)
+	wire := int64(kind)
+	if kind == 5 {
+		wire = 0 // a connection to another peer is a failure of that address
+	}
+	h.line = append(h.line, 3, id, wire, flag)
+	h.observe()
+}
+
+// the back-off of the peer expires (cleared as a whole)
+func (h *c05D) backoffExpires() {
+	h.s.backf.Clear(h.p)
+	synctest.Wait()
+	h.line = append(h.line, 5, -1)
 	h.observe()
 }
 
@@ -279,7 +291,7 @@ func c05DialPeerRandom(out *verifh.Out, r *verifh.Rand, size int) {
 		out.Cover("dialpeer.cases_with_transport_subset")
 	}
 	for i := 1; i <= n; i++ {
-		k := []int{0, 0, 1, 2, 2, 3, 4, 5, 6, 7, 7, 8, 9}[r.Intn(13)]
+		k := []int{0, 0, 1, 2, 2, 3, 4, 5, 6, 7, 7, 8, 9, 12, 13, 14}[r.Intn(16)]
 		pt := 0
 		// the fallback address of the previous one on the same ip:port: /ws next to /tcp, /webtransport next to /quic-v1
 		if i > 1 && r.Chance(1, 3) {
@@ -344,9 +356,15 @@ func c05DialPeerRandom(out *verifh.Out, r *verifh.Rand, size int) {
 			if r.Chance(1, 4) {
 				kind = 1
 				sawConn = true
+			} else if r.Chance(1, 5) {
+				kind = 5
+				out.Cover("dialpeer.op.result_wrong_peer")
 			}
 			h.result(pk[r.Intn(len(pk))], kind)
 			out.Cover("dialpeer.op.result")
+		case k < 83 && len(ws) > 0:
+			h.backoffExpires()
+			out.Cover("dialpeer.op.backoff_expires")
 		case k < 95 && len(ws) > 0:
 			if len(ws) > 1 {
 				sawCancelOthers = true
@@ -499,8 +517,9 @@ func (h *c05D) recordAddrs(fdir bool, good []ma.Multiaddr, errs []TransportError
 			pn, _ := strconv.Atoi(ps)
 			grp = h.ipIdx[key]*100000 + int64(pn)
 		}
-		tpt := k != 8 && (k == 7 || h.direct.caps == 0 || h.direct.caps&(1<<cls) != 0)
-		line = append(line, id, int64(cls), grp, b(tpt), b(k == 9), b(k == 7))
+		relayed := k == 7 || k >= 12
+		tpt := k != 8 && (relayed || h.direct.caps == 0 || h.direct.caps&(1<<cls) != 0)
+		line = append(line, id, int64(cls), grp, b(tpt), b(k == 9), b(relayed))
 	}
 	var ents [][]int64
 	var dnsaddr []int64
@@ -621,5 +640,47 @@ func c05DialPeerFallbackTransport(out *verifh.Out) {
 	h.advance(2 * time.Second)
 	h.finishCase()
 	out.Cover("dialpeer.fallback_transport_only")
+	h.end(out)
+}
+
+// A dial that ends connected to another peer is a failure of that address only: the call goes
+// on with the addresses that are still pending.
+func c05DialPeerWrongPeerConn(out *verifh.Out) {
+	for _, first := range []int64{1, 2} {
+		h := newC05D(4, 4)
+		h.setAddrs([]int{0, 0}, []time.Duration{0, 0})
+		h.call(1, false, false)
+		h.advance(10 * time.Millisecond)
+		if first == 1 {
+			h.result(1, 5) // the stale address finishes first, with a connection to somebody else
+			h.advance(time.Second)
+			h.result(2, 1) // the genuine address connects
+		} else {
+			h.result(2, 0)
+			h.result(1, 5) // every candidate has failed now: only now an error
+		}
+		h.advance(2 * time.Second)
+		h.finishCase()
+		out.Cover("dialpeer.wrong_peer_connection")
+		h.end(out)
+	}
+}
+
+// An earlier dial left address 1 in back-off.  Caller 1 dials: address 1 is refused, the caller
+// keeps waiting on address 2, which hangs.  The back-off expires.  Caller 2 joins the same
+// worker: address 1 has to be attempted for it.
+func c05DialPeerBackoffExpires(out *verifh.Out) {
+	h := newC05D(4, 4)
+	h.setAddrs([]int{0, 0}, []time.Duration{0, 0})
+	h.backoff(1)
+	h.call(1, false, false)
+	h.advance(10 * time.Millisecond)
+	h.backoffExpires()
+	h.call(2, false, false)
+	h.advance(2 * time.Second)
+	h.result(1, 1)
+	h.advance(2 * time.Second)
+	h.finishCase()
+	out.Cover("dialpeer.backoff_expires_second_caller")
 	h.end(out)
 }
